@@ -223,10 +223,10 @@ Section Stream.
     | (PClosed (TErr e), p1) => NewErr e p1
     end.
 
-  (* the caller's loop: Read with buffers of sizes sz 0, sz 1, ... until an error or io.EOF.
+  (* the caller's loop: Read with buffers of sizes sz 0, sz 1, ... (the index is an N: cheap to count) until an error or io.EOF.
      Result: the bytes returned, how it ended (None: [fuel] reads did not reach the end), final state *)
   Fixpoint read_all (rd : nat -> dec -> (bytes * option rend) * dec)
-                    (fuel : nat) (sz : nat -> nat) (i : nat) (d : dec) (acc_rev : bytes)
+                    (fuel : nat) (sz : N -> nat) (i : N) (d : dec) (acc_rev : bytes)
       : bytes * option rend * dec :=
     match fuel with
     | O => (rev_append acc_rev [], None, d)
@@ -235,17 +235,17 @@ Section Stream.
         let acc := rev_append b acc_rev in
         match e with
         | Some e => (rev_append acc [], Some e, d')
-        | None => read_all rd f sz (S i) d' acc
+        | None => read_all rd f sz (N.succ i) d' acc
         end
     end.
 
   Record sres := { s_data : bytes; s_end : option rend; s_prod : prod }.
 
   Definition stream_decode_with (rd : nat -> dec -> (bytes * option rend) * dec)
-                                (chunks : list bytes) (sz : nat -> nat) (fuel : nat) : sres :=
+                                (chunks : list bytes) (sz : N -> nat) (fuel : nat) : sres :=
     match dec_new chunks with
     | NewErr e p => {| s_data := []; s_end := Some (RErr e); s_prod := p |}
-    | NewOk d => let '(b, e, d') := read_all rd fuel sz O d [] in
+    | NewOk d => let '(b, e, d') := read_all rd fuel sz 0 d [] in
                  {| s_data := b; s_end := e; s_prod := d_p d' |}
     end.
   Definition stream_decode := stream_decode_with dec_read.
@@ -296,10 +296,10 @@ Fixpoint cut_pat (fuel : nat) (pat cur : list nat) (l : bytes) : list bytes :=
 Definition cut_doc (pat : list nat) (l : bytes) : list bytes := cut_pat (S (List.length l)) pat pat l.
 
 (* the i-th Read buffer: sizes from [pat] cyclically, never 0 *)
-Definition size_fun (pat : list nat) (i : nat) : nat :=
+Definition size_fun (pat : list nat) (i : N) : nat :=
   match pat with
   | [] => 4096%nat
-  | _ => Nat.max 1 (nth (i mod List.length pat) pat 1%nat)
+  | _ => Nat.max 1 (nth (N.to_nat (i mod N.of_nat (List.length pat))) pat 1%nat)
   end.
 
 (* number of Reads the caller's loop is given: more than the characters that can reach the pipe
